@@ -832,9 +832,11 @@ where
 #[kani::proof]
 #[kani::unwind(66)]
 fn c05_alloc_forms_short_raw_m4() { c05_alloc_forms::<64, 32, false>(4) }
+#[cfg(feature = "alloc")]
 #[kani::proof]
 #[kani::unwind(150)]
 fn c05_alloc_forms_short_raw_m1() { c05_alloc_forms::<64, 32, false>(1) }
+#[cfg(feature = "alloc")]
 #[kani::proof]
 #[kani::unwind(150)]
 fn c05_alloc_forms_long_norm_m1() { c05_alloc_forms::<64, 64, true>(1) }
@@ -933,6 +935,7 @@ macro_rules! c04_driver_harness {
         }
     };
 }
+c04_driver_harness!(c04_driver_short_norm_t8, 64, 32, true, 8);
 c04_driver_harness!(c04_driver_short_norm_t10, 64, 32, true, 10);
 c04_driver_harness!(c04_driver_short_raw_t10, 64, 32, false, 10);
 c04_driver_harness!(c04_driver_long_norm_t10, 64, 64, true, 10);
